@@ -286,8 +286,74 @@ def run_r7(run, helpers=True, dunders=True, rule='R7'):
     if helpers:
         check_helper(run, prog.func('smuserlist:SMUserList.binop'))
         check_helper(run, prog.func('super_pose:SMPose._op2'))
+        check_helper_operand_order(run)
     if dunders:
         for f in prog.analysed_functions():
             if f.cls is not None and f.name in BIN_DUNDERS and f.parent is None:
                 check_dunder_deps(run, f)
                 check_duplicates(run, f)
+
+
+SYMMETRIC_OPS = ('isequal', 'inner', 'allclose', 'array_equal')
+
+
+def _symmetric_op(op):
+    """the element operation gives the same result with its operands exchanged (+, ==, != , inner products, equality tests)"""
+    if isinstance(op, (ast.Name, ast.Attribute)):
+        nm = op.id if isinstance(op, ast.Name) else op.attr
+        return nm in SYMMETRIC_OPS
+    if isinstance(op, ast.Lambda) and len(op.args.args) == 2:
+        a, b = op.args.args[0].arg, op.args.args[1].arg
+        body = op.body
+        while isinstance(body, ast.UnaryOp) and isinstance(body.op, ast.Not):
+            body = body.operand
+        if isinstance(body, ast.Call) and body.args and isinstance(body.func, (ast.Name, ast.Attribute)):
+            nm = body.func.id if isinstance(body.func, ast.Name) else body.func.attr
+            if nm == 'all' and len(body.args) == 1:
+                body = body.args[0]
+            elif nm in SYMMETRIC_OPS and len(body.args) >= 2 and {getattr(x, 'id', None) for x in body.args[:2]} == {a, b}:
+                return True
+        if isinstance(body, ast.BinOp) and isinstance(body.op, (ast.Add, ast.Mult)) and not isinstance(body.op, ast.MatMult):
+            ids = {getattr(body.left, 'id', None), getattr(body.right, 'id', None)}
+            # x + y is symmetric; x * y only for element-wise products of arrays/scalars (both plain names)
+            return ids == {a, b} and isinstance(body.op, ast.Add)
+        if isinstance(body, ast.Compare) and len(body.ops) == 1 and isinstance(body.ops[0], (ast.Eq, ast.NotEq)):
+            return {getattr(body.left, 'id', None), getattr(body.comparators[0], 'id', None)} == {a, b}
+    return False
+
+
+def check_helper_operand_order(run, rule='R7o'):
+    """A forward binary operator hands its operands to the broadcasting helper in order: the receiver of .binop / ._op2 is the
+    method's own first parameter (the LEFT operand) and the helper's argument is (derived from) the second one.  With the
+    receiver and the argument exchanged the helper computes op(right_i, left_i): for a non-symmetric element operation
+    (qqmul, @, -, /, composition through exp/log) that is the product in the wrong order."""
+    prog = run.prog
+    n = 0
+    for f in prog.analysed_functions():
+        if f.cls is None or f.parent is not None or f.name not in BIN_DUNDERS or len(f.params) < 2:
+            continue
+        if f.name.startswith('__r') and f.name not in ('__repr__',) and '__' + f.name[3:] in BIN_DUNDERS:
+            continue          # reflected methods: self is the right operand and the helper call is on self by construction
+        p0, p1 = f.params[0], f.params[1]
+        for c in own_walk(f.node):
+            if not (isinstance(c, ast.Call) and isinstance(c.func, ast.Attribute) and c.func.attr in ('binop', '_op2') and c.args):
+                continue
+            n += 1
+            recv, arg = c.func.value, c.args[0]
+            op = c.args[1] if len(c.args) > 1 else None
+            names_arg = {x.id for x in ast.walk(arg) if isinstance(x, ast.Name)}
+            construct = src(c, 60)
+            if isinstance(recv, ast.Name) and recv.id == p0 and p1 in names_arg and p0 not in names_arg:
+                run.holds(rule, f.key, construct, 'helper receives (left, right) in order', f=f, node=c)
+            elif isinstance(recv, ast.Name) and recv.id == p1 and p0 in names_arg:
+                if op is not None and _symmetric_op(op):
+                    run.holds(rule, f.key, construct, 'operands exchanged, element operation is symmetric', f=f, node=c)
+                else:
+                    run.violation(rule, f.key, construct, 'the broadcasting helper is called on the RIGHT operand with the left one as its argument: it '
+                                  'computes op(%s_i, %s_i), i.e. the element operation %s with its operands in the wrong order (a non-commutative '
+                                  'product is reversed)' % (p1, p0, src(op, 30) if op is not None else ''), f=f, node=c)
+            else:
+                run.undecided(rule, f.key, construct, 'receiver / argument of the helper call are not the two operands', f=f, node=c)
+    if n < 20:
+        run.error('R7o: only %d helper calls in forward binary operators found (expected >= 20)' % n)
+    return n
